@@ -3,6 +3,7 @@ package main
 import (
 	"bytes"
 	"context"
+	"crypto/ecdsa"
 	"fmt"
 	"io/ioutil"
 	"math/big"
@@ -10,6 +11,7 @@ import (
 	"os"
 	"os/exec"
 	"regexp"
+	"runtime/pprof"
 	"sort"
 	"strings"
 	"sync"
@@ -17,21 +19,506 @@ import (
 	"syscall"
 	"time"
 
+	"github.com/MinterTeam/minter-go-node/api/v2/service"
+	"github.com/MinterTeam/minter-go-node/coreV2/minter"
+	"github.com/MinterTeam/minter-go-node/coreV2/state/swap"
+	tx "github.com/MinterTeam/minter-go-node/coreV2/transaction"
 	"github.com/MinterTeam/minter-go-node/coreV2/types"
+	"github.com/MinterTeam/minter-go-node/rlp"
+	pb "github.com/MinterTeam/node-grpc-gateway/api_pb"
+	"google.golang.org/protobuf/types/known/wrapperspb"
 )
 
-// Readers (C25): goroutines that behave like the read-only API handlers: they call getters on CurrentState()
-// (the API takes no state-wide lock) while the history executes blocks on the same node.
+// Readers (C25): goroutines that are API clients of the running node: they call the REAL gRPC handlers of
+// api/v2/service (the functions the gRPC server registers; the server adds only a recover() around them) on the node
+// that executes the history: balances (Address with delegated stakes, Addresses), Candidate / Candidates with stakes,
+// CoinInfo(ById), the three estimate calls with every swap_from, with the fee coin = base coin and = custom coins (the
+// fee conversion through a pool - with limit orders when the pool has some - is then simulated on the pool), with and
+// without routes, EstimateTxCommission on serialized transactions, SwapPool(s), SwapPoolProvider, LimitOrder(s)(OfPool),
+// BestTrade of both types (route search), Frozen(All), WaitList, Halts, MaxGasPrice, PriceCommission, votes, MissedBlocks,
+// VersionNetwork, Events; and the export of a committed height. Arguments come from the running world: the world's
+// addresses and public keys, the coin counter, and what SwapPools (with orders) answers (pools that carry orders, order ids).
+// Handlers that need the Tendermint node / RPC client (Status, Block(s), Transaction(s), Validators, NetInfo, Genesis,
+// MinGasPrice, SendTransaction, UnconfirmedTxs, Subscribe) are not called: there is no Tendermint in the harness.
+// Handler errors are answers; a handler panic is recovered (as the gRPC server does) and counted.
 type Readers struct {
 	stop   chan struct{}
 	wg     sync.WaitGroup
 	Calls  int64
 	mu     sync.Mutex
 	Panics []string
+	Stats  map[string]int64 // per handler: calls, and "<handler>.err" answers with an error
+}
+
+func (r *Readers) note(key string, n int64) {
+	r.mu.Lock()
+	r.Stats[key] += n
+	r.mu.Unlock()
+}
+
+// poolView: what a client learned from SwapPools.
+type poolView struct {
+	c0, c1   uint64
+	orders   []uint64 // ids of its limit orders (both sides)
+	nSell    int
+	nBuy     int
+	liquidID uint64
+}
+
+// apiClient: one reader goroutine's state.
+type apiClient struct {
+	r       *Readers
+	h       *Hist
+	rng     *rand.Rand
+	app     *minter.Blockchain
+	svc     *service.Service
+	addrs   []types.Address
+	pks     []types.Pubkey
+	keys    []*ecdsa.PrivateKey
+	symbols []string
+	chain   types.ChainID
+	pools   []poolView
+	nCoins  uint64
+	calls   int
+	local   map[string]int64
+	role    int // 0 trader wallet (mostly estimates and pools), 1 explorer (accounts, candidates, coins, lists), 2 both
+	form    swapForm
+	hot     []hotSide // order-book sides whose best order can be filled at the current pool price (from LimitOrdersOfPool)
+}
+
+// hotSide: a taker selling `sell` for `buy` starts inside a limit order (the pool price is on or past the best order's
+// price - the state a partial fill leaves behind). Trading clients watch for exactly that.
+type hotSide struct{ sell, buy uint64 }
+
+// swapForm: the exchange a wallet user has on the screen; the wallet re-estimates it (new amounts, same coins, same fee
+// coin) several times before the user moves on.
+type swapForm struct {
+	from, to, fee uint64
+	swapFrom      pb.SwapFrom
+	route         []uint64
+	left          int
+}
+
+func (c *apiClient) curForm() swapForm {
+	if c.form.left <= 0 {
+		from, to := c.pair()
+		c.form = swapForm{from: from, to: to, fee: c.feeCoin(), swapFrom: c.swapFrom(), route: c.route(), left: 1 + c.rng.Intn(16)}
+		if c.rng.Intn(3) == 0 {
+			c.form.fee = from // wallets offer the coin being sold as the fee coin
+		}
+		if len(c.hot) > 0 && c.role != 1 && c.rng.Intn(3) != 0 {
+			// a fillable order: estimate the trade against it, the fee paid in the coin sold, in the coin bought, or in the base coin
+			hs := c.hot[c.rng.Intn(len(c.hot))]
+			c.form.from, c.form.to, c.form.route = hs.sell, hs.buy, nil
+			c.form.fee = []uint64{hs.sell, hs.sell, hs.buy, 0}[c.rng.Intn(4)]
+			c.form.left = 4 + c.rng.Intn(28)
+			c.local["estimates_against_fillable_order"]++
+		}
+	}
+	c.form.left--
+	f := c.form
+	if f.fee != 0 {
+		// coverage note: does the conversion of a fee paid in this coin cross a limit order of its pool with the base coin?
+		if sw := c.app.CurrentState().Swap().GetSwapper(types.CoinID(f.fee), types.GetBaseCoinID()); sw != nil && sw.Exists() {
+			c.local["estimates_fee_coin_has_pool"]++
+			if _, os := sw.CalculateBuyForSellWithOrders(big.NewInt(1e17)); len(os) > 0 {
+				c.local["estimates_fee_conversion_crosses_order"]++
+			}
+		}
+	}
+	return f
+}
+
+// pickOp: the next request of this client, by role.
+func (c *apiClient) pickOp() int {
+	switch c.role {
+	case 0:
+		switch k := c.rng.Intn(20); {
+		case k < 13:
+			return 6 + c.rng.Intn(7) // the estimates
+		case k < 15:
+			return 18 // BestTrade
+		case k == 15:
+			return 13 // EstimateTxCommission
+		default:
+			return 14 + c.rng.Intn(4) // pools and orders
+		}
+	case 1:
+		ops := []int{0, 1, 2, 3, 4, 5, 14, 15, 16, 17, 20, 21, 22, 23, 24, 25}
+		return ops[c.rng.Intn(len(ops))]
+	}
+	return c.rng.Intn(nAPIOps)
+}
+
+func (c *apiClient) addr() string { return c.addrs[c.rng.Intn(len(c.addrs))].String() }
+func (c *apiClient) pk() string   { return c.pks[c.rng.Intn(len(c.pks))].String() }
+
+// coin: a coin id of the running world (base coin, a coin up to the coin counter, the USDT stand-in, a pool coin; rarely a missing one).
+func (c *apiClient) coin() uint64 {
+	switch k := c.rng.Intn(20); {
+	case k < 3:
+		return 0
+	case k < 5:
+		return 1993
+	case k < 9 && len(c.pools) > 0:
+		p := c.pools[c.rng.Intn(len(c.pools))]
+		if c.rng.Intn(2) == 0 {
+			return p.c0
+		}
+		return p.c1
+	case k == 19:
+		return c.nCoins + 1 + uint64(c.rng.Intn(3)) // does not exist (yet)
+	}
+	n := c.nCoins
+	if n < 9 {
+		n = 9
+	}
+	return 1 + uint64(c.rng.Intn(int(n)))
+}
+
+// pool: a pool of the running world, preferably one that carries limit orders.
+func (c *apiClient) pool(wantOrders bool) (poolView, bool) {
+	if len(c.pools) == 0 {
+		return poolView{}, false
+	}
+	if wantOrders {
+		var with []poolView
+		for _, p := range c.pools {
+			if len(p.orders) > 0 {
+				with = append(with, p)
+			}
+		}
+		if len(with) > 0 {
+			return with[c.rng.Intn(len(with))], true
+		}
+	}
+	return c.pools[c.rng.Intn(len(c.pools))], true
+}
+
+// pair: two coins to trade: the two sides of a pool (3 of 4), else any two coins.
+func (c *apiClient) pair() (uint64, uint64) {
+	if c.rng.Intn(4) != 0 {
+		if p, ok := c.pool(c.rng.Intn(2) == 0); ok {
+			if c.rng.Intn(2) == 0 {
+				return p.c0, p.c1
+			}
+			return p.c1, p.c0
+		}
+	}
+	return c.coin(), c.coin()
+}
+
+// feeCoin: the coin the estimated transaction pays its fee in: the base coin, a custom coin that has a pool with the base
+// coin (the fee is then converted through that pool; preferably one that carries orders), or any coin.
+func (c *apiClient) feeCoin() uint64 {
+	switch k := c.rng.Intn(10); {
+	case k < 3:
+		return 0
+	case k < 8:
+		var withBase, withBaseOrders []uint64
+		for _, p := range c.pools {
+			if p.c0 == 0 || p.c1 == 0 {
+				o := p.c0 + p.c1
+				withBase = append(withBase, o)
+				if len(p.orders) > 0 {
+					withBaseOrders = append(withBaseOrders, o)
+				}
+			}
+		}
+		if len(withBaseOrders) > 0 && c.rng.Intn(3) != 0 {
+			c.local["estimates_fee_coin_pool_with_orders"]++
+			return withBaseOrders[c.rng.Intn(len(withBaseOrders))]
+		}
+		if len(withBase) > 0 {
+			return withBase[c.rng.Intn(len(withBase))]
+		}
+	}
+	return c.coin()
+}
+
+func (c *apiClient) amount() string {
+	// 10^10 .. 10^23 pip with random leading digits; sometimes tiny or zero
+	switch c.rng.Intn(25) {
+	case 0:
+		return "0"
+	case 1:
+		return fmt.Sprint(1 + c.rng.Intn(1000))
+	}
+	v := big.NewInt(1 + c.rng.Int63n(999999))
+	v.Mul(v, new(big.Int).Exp(big.NewInt(10), big.NewInt(int64(5+c.rng.Intn(14))), nil))
+	return v.String()
+}
+
+func (c *apiClient) route() []uint64 {
+	if c.rng.Intn(4) != 0 {
+		return nil
+	}
+	n := 1 + c.rng.Intn(2)
+	if c.rng.Intn(30) == 0 {
+		n = 4 // too long: answered with an error
+	}
+	var out []uint64
+	for i := 0; i < n; i++ {
+		out = append(out, c.coin())
+	}
+	return out
+}
+
+// height: almost always the current state (0); sometimes the last committed height (a state opened from the database).
+func (c *apiClient) height() uint64 {
+	if c.rng.Intn(25) == 0 {
+		return c.app.Height()
+	}
+	return 0
+}
+
+func (c *apiClient) swapFrom() pb.SwapFrom {
+	return []pb.SwapFrom{pb.SwapFrom_optimal, pb.SwapFrom_pool, pb.SwapFrom_bancor}[c.rng.Intn(3)]
+}
+
+// rawTx: a serialized, signed transaction of the world (what a wallet sends to estimate_tx_commission before it broadcasts).
+func (c *apiClient) rawTx() string {
+	var data interface{}
+	var typ tx.TxType
+	to := c.addrs[c.rng.Intn(len(c.addrs))]
+	switch c.rng.Intn(5) {
+	case 0:
+		c0, c1 := c.pair()
+		typ, data = tx.TypeSellSwapPool, tx.SellSwapPoolDataV260{Coins: []types.CoinID{types.CoinID(c0), types.CoinID(c1)}, ValueToSell: big.NewInt(1e15), MinimumValueToBuy: big.NewInt(1)}
+	case 1:
+		typ, data = tx.TypeMultisend, tx.MultisendData{List: []tx.MultisendDataItem{{Coin: types.CoinID(c.coin()), To: to, Value: big.NewInt(1)}, {Coin: 0, To: to, Value: big.NewInt(2)}}}
+	case 2:
+		typ, data = tx.TypeDelegate, tx.DelegateDataV260{PubKey: c.pks[c.rng.Intn(len(c.pks))], Coin: 0, Value: big.NewInt(1e18)}
+	default:
+		typ, data = tx.TypeSend, tx.SendData{Coin: types.CoinID(c.coin()), To: to, Value: big.NewInt(1 + c.rng.Int63n(1e18))}
+	}
+	bData, err := rlp.EncodeToBytes(data)
+	if err != nil {
+		return "0x"
+	}
+	t0 := tx.Transaction{Nonce: 1 + uint64(c.rng.Intn(50)), ChainID: c.chain, GasPrice: uint32(1 + c.rng.Intn(3)), GasCoin: types.CoinID(c.feeCoin()), Type: typ, Data: bData, SignatureType: tx.SigTypeSingle}
+	if c.rng.Intn(4) == 0 {
+		t0.Payload = make([]byte, c.rng.Intn(60))
+	}
+	if err := t0.Sign(c.keys[c.rng.Intn(len(c.keys))]); err != nil {
+		return "0x"
+	}
+	raw, err := rlp.EncodeToBytes(t0)
+	if err != nil {
+		return "0x"
+	}
+	if c.rng.Intn(40) == 0 {
+		raw = raw[:len(raw)/2] // truncated: answered with an error
+	}
+	return "0x" + hexs(raw)
+}
+
+// refresh: list the pools with their orders (SwapPools, as an explorer does) and read the coin counter.
+func (c *apiClient) refresh(ctx context.Context) {
+	c.nCoins = uint64(c.app.CurrentState().App().GetCoinsCount())
+	resp, err := c.svc.SwapPools(ctx, &pb.SwapPoolsRequest{Orders: true})
+	c.local["SwapPools"]++
+	if err != nil || resp == nil {
+		c.local["SwapPools.err"]++
+		return
+	}
+	c.pools = c.pools[:0]
+	for _, p := range resp.Pools {
+		v := poolView{c0: p.Coin0, c1: p.Coin1, liquidID: p.Id, nSell: len(p.OrdersSell), nBuy: len(p.OrdersBuy)}
+		for _, o := range p.OrdersSell {
+			v.orders = append(v.orders, o.Id)
+		}
+		for _, o := range p.OrdersBuy {
+			v.orders = append(v.orders, o.Id)
+		}
+		c.pools = append(c.pools, v)
+	}
+}
+
+func (c *apiClient) orderID() uint64 {
+	if p, ok := c.pool(true); ok && len(p.orders) > 0 && c.rng.Intn(5) != 0 {
+		return p.orders[c.rng.Intn(len(p.orders))]
+	}
+	return uint64(1 + c.rng.Intn(40))
+}
+
+// nAPIOps is the number of query kinds of one client (VERIF_READER_OPS=<k>,<k>… restricts a run to some of them).
+const nAPIOps = 27
+
+// apiOpName: the handler(s) behind a query kind (for the panic notes).
+func apiOpName(op int) string {
+	names := []string{"Address", "Addresses", "Candidate", "Candidates", "CoinInfoById", "CoinInfo", "EstimateCoinSell", "EstimateCoinSell", "EstimateCoinSell",
+		"EstimateCoinBuy", "EstimateCoinBuy", "EstimateCoinSellAll", "EstimateCoinSellAll", "EstimateTxCommission", "SwapPool", "SwapPoolProvider",
+		"LimitOrdersOfPool", "LimitOrder(s)", "BestTrade", "BestTrade", "Frozen(All)", "WaitList", "Halts", "MaxGasPrice/PriceCommission/votes/VersionNetwork",
+		"MissedBlocks/Events", "Export", "SwapPools"}
+	if op >= 0 && op < len(names) {
+		return names[op]
+	}
+	return "client"
+}
+
+// one performs one API request; returns the handler name and its error.
+func (c *apiClient) one(op int) (string, error) {
+	ctx, cancel := context.WithTimeout(context.Background(), 2*time.Second) // the API's request timeout
+	defer cancel()
+	s := c.svc
+	switch op {
+	case 0:
+		_, err := s.Address(ctx, &pb.AddressRequest{Address: c.addr(), Height: c.height(), Delegated: c.rng.Intn(2) == 0})
+		return "Address", err
+	case 1:
+		_, err := s.Addresses(ctx, &pb.AddressesRequest{Addresses: []string{c.addr(), c.addr(), c.addr()}, Height: c.height(), Delegated: c.rng.Intn(2) == 0})
+		return "Addresses", err
+	case 2:
+		_, err := s.Candidate(ctx, &pb.CandidateRequest{PublicKey: c.pk(), Height: c.height(), NotShowStakes: c.rng.Intn(3) == 0})
+		return "Candidate", err
+	case 3:
+		_, err := s.Candidates(ctx, &pb.CandidatesRequest{Height: c.height(), IncludeStakes: c.rng.Intn(3) != 0, NotShowStakes: c.rng.Intn(4) == 0, Status: pb.CandidatesRequest_CandidateStatus(c.rng.Intn(4))})
+		return "Candidates", err
+	case 4:
+		_, err := s.CoinInfoById(ctx, &pb.CoinIdRequest{Id: c.coin(), Height: c.height()})
+		return "CoinInfoById", err
+	case 5:
+		_, err := s.CoinInfo(ctx, &pb.CoinInfoRequest{Symbol: c.symbols[c.rng.Intn(len(c.symbols))], Height: c.height()})
+		return "CoinInfo", err
+	case 6, 7, 8: // the sale estimate is the most used call of a wallet
+		f := c.curForm()
+		_, err := s.EstimateCoinSell(ctx, &pb.EstimateCoinSellRequest{
+			Sell: &pb.EstimateCoinSellRequest_CoinIdToSell{CoinIdToSell: f.from}, Buy: &pb.EstimateCoinSellRequest_CoinIdToBuy{CoinIdToBuy: f.to},
+			ValueToSell: c.amount(), Height: c.height(), Commission: &pb.EstimateCoinSellRequest_CoinIdCommission{CoinIdCommission: f.fee},
+			SwapFrom: f.swapFrom, Route: f.route})
+		return "EstimateCoinSell", err
+	case 9, 10:
+		f := c.curForm()
+		_, err := s.EstimateCoinBuy(ctx, &pb.EstimateCoinBuyRequest{
+			Sell: &pb.EstimateCoinBuyRequest_CoinIdToSell{CoinIdToSell: f.from}, Buy: &pb.EstimateCoinBuyRequest_CoinIdToBuy{CoinIdToBuy: f.to},
+			ValueToBuy: c.amount(), Height: c.height(), Commission: &pb.EstimateCoinBuyRequest_CoinIdCommission{CoinIdCommission: f.fee},
+			SwapFrom: f.swapFrom, Route: f.route})
+		return "EstimateCoinBuy", err
+	case 11, 12:
+		f := c.curForm() // the fee of a sell-all is paid in the coin sold: a custom coin whenever `from` is one
+		_, err := s.EstimateCoinSellAll(ctx, &pb.EstimateCoinSellAllRequest{
+			Sell: &pb.EstimateCoinSellAllRequest_CoinIdToSell{CoinIdToSell: f.from}, Buy: &pb.EstimateCoinSellAllRequest_CoinIdToBuy{CoinIdToBuy: f.to},
+			ValueToSell: c.amount(), GasPrice: uint64(1 + c.rng.Intn(3)), Height: c.height(), SwapFrom: f.swapFrom, Route: f.route})
+		return "EstimateCoinSellAll", err
+	case 13:
+		_, err := s.EstimateTxCommission(ctx, &pb.EstimateTxCommissionRequest{Tx: c.rawTx(), Height: c.height()})
+		return "EstimateTxCommission", err
+	case 14:
+		c0, c1 := c.pair()
+		_, err := s.SwapPool(ctx, &pb.SwapPoolRequest{Coin0: c0, Coin1: c1, Height: c.height()})
+		return "SwapPool", err
+	case 15:
+		c0, c1 := c.pair()
+		_, err := s.SwapPoolProvider(ctx, &pb.SwapPoolProviderRequest{Coin0: c0, Coin1: c1, Provider: c.addr(), Height: c.height()})
+		return "SwapPoolProvider", err
+	case 16:
+		c0, c1 := c.pair()
+		if p, ok := c.pool(true); ok && c.rng.Intn(4) != 0 {
+			c0, c1 = p.c0, p.c1
+			if c.rng.Intn(2) == 0 {
+				c0, c1 = c1, c0
+			}
+		}
+		hgt := c.height()
+		resp, err := s.LimitOrdersOfPool(ctx, &pb.LimitOrdersOfPoolRequest{SellCoin: c0, BuyCoin: c1, Limit: int32(c.rng.Intn(20)), Height: hgt})
+		if hgt == 0 {
+			// the book side "owners sell c0 for c1" is what a taker selling c1 for c0 trades against
+			side := hotSide{sell: c1, buy: c0}
+			keep := c.hot[:0]
+			for _, x := range c.hot {
+				if x != side {
+					keep = append(keep, x)
+				}
+			}
+			c.hot = keep
+			if err == nil && resp != nil && len(resp.Orders) > 0 {
+				// fillable now: pool price <= best order's price (same convention in the response), up to the rounding a partial fill leaves
+				pool, ok1 := new(big.Rat).SetString(resp.PoolPrice)
+				best, ok2 := new(big.Rat).SetString(resp.Orders[0].Price)
+				if ok1 && ok2 && new(big.Rat).Mul(pool, big.NewRat(1000000, 1)).Cmp(new(big.Rat).Mul(best, big.NewRat(1000001, 1))) <= 0 {
+					c.hot = append(c.hot, side)
+					c.local["fillable_order_seen"]++
+				}
+			}
+		}
+		return "LimitOrdersOfPool", err
+	case 17:
+		if c.rng.Intn(2) == 0 {
+			_, err := s.LimitOrder(ctx, &pb.LimitOrderRequest{OrderId: c.orderID(), Height: c.height()})
+			return "LimitOrder", err
+		}
+		_, err := s.LimitOrders(ctx, &pb.LimitOrdersRequest{Ids: []uint64{c.orderID(), c.orderID(), c.orderID()}, Height: c.height()})
+		return "LimitOrders", err
+	case 18, 19:
+		from, to := c.pair()
+		typ := pb.BestTradeRequest_input
+		if c.rng.Intn(2) == 0 {
+			typ = pb.BestTradeRequest_output
+		}
+		_, err := s.BestTrade(ctx, &pb.BestTradeRequest{SellCoin: from, BuyCoin: to, Amount: c.amount(), Type: typ, MaxDepth: int32(c.rng.Intn(5)), Height: c.height()})
+		return "BestTrade", err
+	case 20:
+		if c.rng.Intn(4) == 0 {
+			h := c.app.Height()
+			_, err := s.FrozenAll(ctx, &pb.FrozenAllRequest{StartHeight: h, EndHeight: h + uint64(c.rng.Intn(60)), Addresses: []string{c.addr(), c.addr()}})
+			return "FrozenAll", err
+		}
+		req := &pb.FrozenRequest{Address: c.addr(), Height: c.height()}
+		if c.rng.Intn(2) == 0 {
+			req.CoinId = wrapperspb.UInt64(c.coin())
+		}
+		_, err := s.Frozen(ctx, req)
+		return "Frozen", err
+	case 21:
+		_, err := s.WaitList(ctx, &pb.WaitListRequest{PublicKey: c.pk(), Address: c.addr(), Height: c.height()})
+		return "WaitList", err
+	case 22:
+		_, err := s.Halts(ctx, &pb.HaltsRequest{Height: c.app.Height() + uint64(c.rng.Intn(12))})
+		return "Halts", err
+	case 23:
+		switch c.rng.Intn(5) {
+		case 0:
+			_, err := s.MaxGasPrice(ctx, &pb.MaxGasPriceRequest{Height: c.height()})
+			return "MaxGasPrice", err
+		case 1:
+			_, err := s.PriceCommission(ctx, &pb.PriceCommissionRequest{Height: c.height()})
+			return "PriceCommission", err
+		case 2:
+			_, err := s.CommissionVotes(ctx, &pb.CommissionVotesRequest{TargetVersion: c.app.Height() + uint64(c.rng.Intn(12)), Height: c.height()})
+			return "CommissionVotes", err
+		case 3:
+			_, err := s.UpdateVotes(ctx, &pb.UpdateVotesRequest{TargetVersion: c.app.Height() + uint64(c.rng.Intn(12)), Height: c.height()})
+			return "UpdateVotes", err
+		}
+		_, err := s.VersionNetwork(ctx, &pb.VersionNetworkRequest{})
+		return "VersionNetwork", err
+	case 24:
+		if c.rng.Intn(3) == 0 {
+			_, err := s.Events(ctx, &pb.EventsRequest{Height: c.app.Height() - uint64(c.rng.Intn(3))})
+			return "Events", err
+		}
+		_, err := s.MissedBlocks(ctx, &pb.MissedBlocksRequest{PublicKey: c.pk(), Height: c.height()})
+		return "MissedBlocks", err
+	case 25:
+		// export is served from a separate state opened at a committed height (as `minter export` and
+		// State.Export do), never from the live state
+		if c.rng.Intn(6) == 0 {
+			if hs, err := c.app.GetStateForHeight(c.app.Height()); err == nil && hs != nil && c.app.Height() > 0 {
+				hs.Export()
+			}
+			return "Export", nil
+		}
+		return "", nil
+	case 26:
+		c.refresh(ctx)
+		return "", nil
+	}
+	return "", nil
 }
 
 func StartReaders(h *Hist, n int, seed int64) *Readers {
-	r := &Readers{stop: make(chan struct{})}
+	r := &Readers{stop: make(chan struct{}), Stats: map[string]int64{}}
 	var onlyOps []int
 	for _, f := range strings.Split(os.Getenv("VERIF_READER_OPS"), ",") {
 		var k int
@@ -40,12 +527,29 @@ func StartReaders(h *Hist, n int, seed int64) *Readers {
 		}
 	}
 	addrs := append([]types.Address{}, h.W.Addrs...)
+	for _, m := range h.W.Multis {
+		addrs = append(addrs, m.Addr)
+	}
+	addrs = append(addrs, types.Address{})
 	pks := append([]types.Pubkey{}, h.W.PubKeys...)
+	keys := append([]*ecdsa.PrivateKey{}, h.W.Keys...)
+	symbols := append(append([]string{}, h.W.Symbols...), "BIP", "MNT", "LP-1", "LP-2", "COINA-1", "NOSUCH")
+	chain := h.W.Chain
+	go r.watchdog(h)
 	for i := 0; i < n; i++ {
 		r.wg.Add(1)
 		go func(i int) {
 			defer r.wg.Done()
-			rng := rand.New(rand.NewSource(seed*131 + int64(i)))
+			c := &apiClient{r: r, h: h, rng: rand.New(rand.NewSource(seed*131 + int64(i))), addrs: addrs, pks: pks, keys: keys, symbols: symbols, chain: chain, local: map[string]int64{}, role: i % 3}
+			flush := func() {
+				r.mu.Lock()
+				for k, v := range c.local {
+					r.Stats[k] += v
+				}
+				r.mu.Unlock()
+				c.local = map[string]int64{}
+			}
+			defer flush()
 			for {
 				select {
 				case <-r.stop:
@@ -53,13 +557,16 @@ func StartReaders(h *Hist, n int, seed int64) *Readers {
 				default:
 				}
 				func() {
+					op := -1
 					defer func() {
 						if e := recover(); e != nil {
-							fmt.Fprintln(os.Stderr, "READER-PANIC", shortPanic(e))
+							what := fmt.Sprintf("%s: %s", apiOpName(op), shortPanic(e))
+							fmt.Fprintln(os.Stderr, "READER-PANIC", what)
 							r.mu.Lock()
 							if len(r.Panics) < 20 {
-								r.Panics = append(r.Panics, shortPanic(e))
+								r.Panics = append(r.Panics, what)
 							}
+							r.Stats["panic."+apiOpName(op)]++
 							r.mu.Unlock()
 						}
 					}()
@@ -67,100 +574,284 @@ func StartReaders(h *Hist, n int, seed int64) *Readers {
 					if app == nil {
 						return
 					}
-					cs := app.CurrentState()
-					a := addrs[rng.Intn(len(addrs))]
-					pk := pks[rng.Intn(len(pks))]
-					c0 := types.CoinID(rng.Intn(8))
-					c1 := types.CoinID(rng.Intn(8))
-					op := rng.Intn(16)
-					if len(onlyOps) > 0 {
-						op = onlyOps[rng.Intn(len(onlyOps))]
+					if app != c.app { // first call, or the node was restarted
+						c.app = app
+						c.svc = service.NewService(app, nil, nil, nil, "test", nil)
+						c.pools = nil
 					}
-					switch op {
-					case 0:
-						cs.Accounts().GetBalances(a)
-						cs.Accounts().GetNonce(a)
-					case 1:
-						cs.Accounts().GetBalance(a, c0)
-					case 2:
-						for _, c := range cs.Candidates().GetCandidates() {
-							_ = c.GetTotalBipStake()
-							cs.Candidates().GetStakes(c.PubKey)
+					op = c.pickOp()
+					if len(onlyOps) > 0 {
+						op = onlyOps[c.rng.Intn(len(onlyOps))]
+					}
+					if c.calls%50 == 0 && len(onlyOps) == 0 {
+						op = 26 // a client lists the pools first, and again from time to time
+					}
+					c.calls++
+					name, err := c.one(op)
+					if name != "" {
+						c.local[name]++
+						if err != nil {
+							c.local[name+".err"]++
 						}
-					case 3:
-						if c := cs.Candidates().GetCandidate(pk); c != nil {
-							cs.Candidates().GetTotalStake(pk)
-							cs.Candidates().GetStakeValueOfAddress(pk, a, c0)
-						}
-					case 4:
-						if co := cs.Coins().GetCoin(c0); co != nil {
-							_ = co.Volume()
-							_ = co.Reserve()
-						}
-					case 5:
-						cs.Swap().SwapPool(c0, c1)
-					case 6:
-						if c0 != c1 && cs.Swap().SwapPoolExist(c0, c1) {
-							sw := cs.Swap().GetSwapper(c0, c1)
-							sw.Reserves()
-							sw.CalculateBuyForSellWithOrders(big.NewInt(int64(1e12) + rng.Int63n(1e15)))
-							sw.OrdersSell(5)
-						}
-					case 7:
-						ctx, cancel := context.WithTimeout(context.Background(), 200*time.Millisecond)
-						cs.Swap().GetBestTradeExactIn(ctx, uint64(c1), uint64(c0), big.NewInt(1e15), 3)
-						cancel()
-					case 8:
-						ctx, cancel := context.WithTimeout(context.Background(), 200*time.Millisecond)
-						cs.Swap().GetBestTradeExactOut(ctx, uint64(c0), uint64(c1), big.NewInt(1e15), 3)
-						cancel()
-					case 9:
-						cs.Validators().GetValidators()
-					case 10:
-						cs.FrozenFunds().GetFrozenFunds(app.Height() + uint64(rng.Intn(600)))
-					case 11:
-						cs.WaitList().GetByAddress(a)
-					case 12:
-						cs.App().GetMaxGas()
-						cs.App().GetTotalSlashed()
-						cs.Commission().GetCommissions()
-					case 13:
-						// export is served from a separate state opened at a committed height (as `minter export` and
-						// State.Export do), never from the live state
-						if rng.Intn(6) == 0 {
-							if hs, err := app.GetStateForHeight(app.Height()); err == nil && hs != nil && app.Height() > 0 {
-								hs.Export()
-							}
-						}
-					case 14:
-						cs.Candidates().IsDelegatorStakeSufficient(a, pk, c0, big.NewInt(1e18))
-						cs.Candidates().IsCandidateJailed(pk, app.Height())
-					case 15:
-						cs.Halts().IsHaltExists(app.Height(), pk)
 					}
 					atomic.AddInt64(&r.Calls, 1)
 				}()
+				if c.calls%200 == 0 {
+					flush()
+				}
 			}
 		}(i)
 	}
 	return r
 }
 
+// stallLimit: block execution of a loaded node that does not reach a new height for this long is hung (a block of a
+// generated history takes about a second under query load in the race build). VERIF_STALL_LIMIT=<duration> overrides.
+var stallLimit = func() time.Duration {
+	if d, err := time.ParseDuration(os.Getenv("VERIF_STALL_LIMIT")); err == nil && d > 0 {
+		return d
+	}
+	return 45 * time.Second
+}()
+
+const stallMarker = "READER-WATCHDOG block execution made no progress"
+
+// watchdog runs next to the readers: when the node's height (set by BeginBlock) stops advancing for stallLimit while the
+// history is still running, it prints every goroutine's stack and ends the process with exit code 3; the parent reports
+// the hang. (The parent's own time limit stays as the backstop.)
+func (r *Readers) watchdog(h *Hist) {
+	last, since := uint64(0), time.Now()
+	tick := time.NewTicker(500 * time.Millisecond)
+	defer tick.Stop()
+	for {
+		select {
+		case <-r.stop:
+			return
+		case <-tick.C:
+		}
+		app := h.N.App
+		if app == nil {
+			continue
+		}
+		if cur := app.Height(); cur != last {
+			last, since = cur, time.Now()
+			continue
+		}
+		if time.Since(since) > stallLimit {
+			fmt.Fprintf(os.Stderr, "%s for %s at height %d; goroutine dump:\n", stallMarker, stallLimit, last)
+			pprof.Lookup("goroutine").WriteTo(os.Stderr, 2)
+			os.Exit(3)
+		}
+	}
+}
+
 func (r *Readers) Stop() {
 	close(r.stop)
 	r.wg.Wait()
+	// per-handler counters for the parent process (Concurrent sums them into Notes)
+	r.mu.Lock()
+	keys := make([]string, 0, len(r.Stats))
+	for k := range r.Stats {
+		keys = append(keys, k)
+	}
+	sort.Strings(keys)
+	var parts []string
+	for _, k := range keys {
+		parts = append(parts, fmt.Sprintf("%s=%d", k, r.Stats[k]))
+	}
+	r.mu.Unlock()
+	fmt.Fprintln(os.Stderr, "READER-STATS "+strings.Join(parts, " "))
+}
+
+// ---------------------------------------------------------------------------------------------------------------
+// Profile suffix "+mm": the generated history of the base profile with a market maker in it. Order books of live pools
+// are not the far-away, never-touched orders a random generator leaves: a market maker keeps an order close to the price
+// of every pool with the base coin, takers trade into it and leave it partially filled (the pool price then sits on the
+// order), and accounts without base coin pay their fees in the pool's coin, so that the fee conversion itself crosses the
+// order. The maker acts from Hist.DebugHook (before the first generated transaction of a block), deterministically from the
+// node's state, so the query-free and the loaded child execute the same history.
+
+type marketMaker struct {
+	h      *Hist
+	coins  []types.CoinID
+	height uint64
+}
+
+func (m *marketMaker) richest(coin types.CoinID) (types.Address, *big.Int) {
+	cs := m.h.N.App.CurrentState()
+	best, bal := m.h.W.Addrs[0], big.NewInt(0)
+	for _, a := range m.h.W.Addrs {
+		if b := cs.Accounts().GetBalance(a, coin); b.Cmp(bal) > 0 {
+			best, bal = a, b
+		}
+	}
+	return best, bal
+}
+
+func (m *marketMaker) deliver(kind string, g *GenTx) {
+	h := m.h
+	r, pan := h.N.Deliver(g.Raw)
+	h.Ops++
+	if pan != "" {
+		h.Panics = append(h.Panics, fmt.Sprintf("DeliverTx (market maker, %s) h=%d: %s raw=%x", kind, h.N.Height, pan, g.Raw))
+		h.S.Op(fmt.Sprintf("M %s code=999 panic=%q raw=%x", kind, pan, g.Raw))
+		return
+	}
+	h.Stats[fmt.Sprintf("mm.%s.%s", kind, okstr(r.Code))]++
+	h.S.Op(fmt.Sprintf("M %s code=%d tags=%v raw=%x", kind, r.Code, tagsOf(r.Events), g.Raw))
+}
+
+// step: one action per block on every pool (X, base): pay a fee in X when the conversion crosses an order; else trade into
+// the best order when it is near; else post an order 1 % off the pool price.
+func (m *marketMaker) step() {
+	for _, x := range m.coins {
+		m.stepPool(x)
+	}
+}
+
+func (m *marketMaker) stepPool(x types.CoinID) {
+	h := m.h
+	if h.N.Dead != "" {
+		return
+	}
+	cs := h.N.App.CurrentState()
+	sw := cs.Swap().GetSwapper(x, types.GetBaseCoinID()) // a taker selling X for the base coin
+	if sw == nil || !sw.Exists() {
+		return
+	}
+	plain := func(t *tx.Transaction) { t.GasPrice = 1; t.Payload = nil; t.ServiceData = nil }
+	rX, rBase := sw.Reserves()
+	if rX.Sign() <= 0 || rBase.Sign() <= 0 {
+		return
+	}
+	if _, crossed := sw.CalculateBuyForSellWithOrders(big.NewInt(1e17)); len(crossed) > 0 {
+		payer, bal := m.richest(x)
+		if bal.Sign() > 0 {
+			to := h.W.Addrs[int(m.height)%len(h.W.Addrs)]
+			m.deliver("fee-across-order", h.G.Build(tx.TypeSend, tx.SendData{Coin: 0, To: to, Value: big.NewInt(1)}, payer, x, plain))
+		}
+		return
+	}
+	var best *swap.Limit
+	if os := sw.OrdersSell(1); len(os) > 0 && os[0] != nil {
+		best = os[0]
+	}
+	if best != nil {
+		// near: the order's price is within 3 % of the pool price
+		if new(big.Rat).Mul(best.PriceRat(), big.NewRat(103, 100)).Cmp(sw.PriceRat()) >= 0 {
+			need, _ := sw.CalculateAddAmountsForPrice(best.Price())
+			if need == nil || need.Sign() < 0 {
+				need = big.NewInt(0)
+			}
+			amount := new(big.Int).Add(need, new(big.Int).Div(new(big.Int).Mul(best.WantBuy, big.NewInt(int64(25+m.height%50))), big.NewInt(100)))
+			amount.Add(amount, new(big.Int).Div(amount, big.NewInt(400)))
+			taker, bal := m.richest(x)
+			if taker == best.Owner || bal.Cmp(amount) <= 0 {
+				return
+			}
+			m.deliver("partial-fill", h.G.Build(tx.TypeSellSwapPool, tx.SellSwapPoolDataV260{Coins: []types.CoinID{x, 0}, ValueToSell: amount, MinimumValueToBuy: big.NewInt(1)}, taker, 0, plain))
+			return
+		}
+	}
+	maker, bal := m.richest(0)
+	vs := new(big.Int).Div(rBase, big.NewInt(40)) // base coin offered
+	if bal.Cmp(new(big.Int).Mul(vs, big.NewInt(2))) <= 0 {
+		return
+	}
+	// wanted: X at 1 % less base per X than the pool gives
+	vb := new(big.Int).Div(new(big.Int).Mul(new(big.Int).Mul(vs, rX), big.NewInt(100)), new(big.Int).Mul(rBase, big.NewInt(99)))
+	if vb.Sign() <= 0 {
+		return
+	}
+	m.deliver("order", h.G.Build(tx.TypeAddLimitOrder, tx.AddLimitOrderData{CoinToSell: 0, ValueToSell: vs, CoinToBuy: x, ValueToBuy: vb}, maker, 0, plain))
+}
+
+func attachMarketMaker(h *Hist) {
+	m := &marketMaker{h: h, coins: []types.CoinID{4, 1, 1993}}
+	prev := h.DebugHook
+	h.DebugHook = func(g *GenTx) {
+		if prev != nil {
+			prev(g)
+		}
+		if cur := h.N.Height; cur != m.height { // once per block, before its first generated transaction
+			m.height = cur
+			m.step()
+		}
+	}
+}
+
+// concurrentChild is the child process of a "+mm" history (the plain profiles use the `one` command): one history into a
+// trace file, with or without readers. It is entered through the `concurrent` command itself with profile "child:<profile>"
+// and -keep <trace file> (no new command line is needed for it).
+func concurrentChild(profile string, seed int64, tier, tracePath string, readers int) {
+	sink, err := NewSink(tracePath, "")
+	if err != nil {
+		panic(err)
+	}
+	base := strings.TrimSuffix(profile, "+mm")
+	h, err := NewHist(Profile(base, seed, tier), sink)
+	if err != nil {
+		panic(err)
+	}
+	if strings.HasSuffix(profile, "+mm") {
+		attachMarketMaker(h)
+	}
+	var rd *Readers
+	if readers > 0 {
+		rd = StartReaders(h, readers, seed)
+	}
+	h.Run()
+	if rd != nil {
+		rd.Stop()
+		fmt.Printf("READERS calls=%d panics=%d %v\n", rd.Calls, len(rd.Panics), rd.Panics)
+	}
+	var mm []string
+	for k, v := range h.Stats {
+		if strings.HasPrefix(k, "mm.") {
+			mm = append(mm, fmt.Sprintf("%s=%d", k, v))
+		}
+	}
+	sort.Strings(mm)
+	fmt.Fprintln(os.Stderr, "MM-STATS "+strings.Join(mm, " "))
+	sink.Close()
+	h.N.Destroy()
+	os.Exit(0)
 }
 
 var raceHdr = regexp.MustCompile(`WARNING: DATA RACE`)
 
-// childTimeout bounds one child process (one history). A child that does not finish is a hang: it is sent SIGQUIT first
-// (the Go runtime then prints every goroutine's stack and exits), killed if that does not help, and reported.
-var childTimeout = func() time.Duration {
-	if d, err := time.ParseDuration(os.Getenv("VERIF_CHILD_TIMEOUT")); err == nil && d > 0 {
-		return d // for testing the hang path
+// Time limits of the child processes. A child that does not finish is a hang: it is sent SIGQUIT first (the Go runtime
+// then prints every goroutine's stack and exits), killed if that does not help, and reported.
+// The query-free child gets a flat limit; the loaded child gets a limit proportional to what the query-free run of the
+// same history took (loadedFactor times, at least loadedMinTimeout, at most childTimeout; the loaded child is a race-detector
+// build that shares 8 CPUs and the node's locks with 6 API clients: measured 9-10 times the query-free time). That limit is
+// only the backstop: a node whose block execution stops is reported by the watchdog inside the child (Readers.watchdog)
+// stallLimit after the last new height. VERIF_CHILD_TIMEOUT=<duration> fixes both limits (for testing the hang path).
+var (
+	childTimeout     = 10 * time.Minute
+	loadedFactor     = 40
+	loadedMinTimeout = 120 * time.Second
+	fixedTimeout     = func() time.Duration {
+		if d, err := time.ParseDuration(os.Getenv("VERIF_CHILD_TIMEOUT")); err == nil && d > 0 {
+			return d
+		}
+		return 0
+	}()
+)
+
+func loadedLimit(plain time.Duration) time.Duration {
+	if fixedTimeout > 0 {
+		return fixedTimeout
 	}
-	return 10 * time.Minute
-}()
+	d := time.Duration(loadedFactor) * plain
+	if d < loadedMinTimeout {
+		d = loadedMinTimeout
+	}
+	if d > childTimeout {
+		d = childTimeout
+	}
+	return d
+}
 
 var errChildHung = fmt.Errorf("child process hung")
 
@@ -191,32 +882,53 @@ func runChild(cmd *exec.Cmd, timeout time.Duration) (string, error) {
 // Concurrent (C25): each history runs in two child processes — query-free and with reader goroutines — and the traces
 // (every response, tag, state delta and app hash) must be identical; the loaded child must neither die nor hang.
 // A panic inside a reader goroutine is recovered (the API server recovers handler panics too) and only counted in
-// Notes["reader_panics"]; violations are: process death, a hang (no end within childTimeout; goroutine dump kept), a trace difference.
+// Notes["reader_panics"]; violations are: process death, a hang (no end within loadedLimit(query-free time); goroutine dump kept),
+// a trace difference.
 // When a race-detector build of the harness is available the loaded child is that build and its reports are collected.
 func Concurrent(profile string, baseSeed int64, n int, tier, keep, self, raceBin string, readers int) ModeResult {
+	if strings.HasPrefix(profile, "child:") {
+		concurrentChild(strings.TrimPrefix(profile, "child:"), baseSeed, tier, keep, readers) // does not return
+	}
 	res := ModeResult{Notes: map[string]interface{}{}}
 	races := map[string]int{}
+	mmStats := map[string]int64{}
 	totalCalls := 0
 	staleCache := 0
 	readerPanics := 0
 	var panicSamples []string
+	handlerCalls := map[string]int64{}
+	staleHist, staleLines := 0, 0
+	var plainTotal, loadedTotal time.Duration
 	for i := 0; i < n; i++ {
 		seed := baseSeed*1000 + int64(i)
-		run := func(bin string, rd int, extraEnv []string) ([]string, string, error, string) {
+		if hung := res.Notes["stopped_after_hang"]; hung != nil {
+			break
+		}
+		run := func(bin string, rd int, extraEnv []string, limit time.Duration) ([]string, string, error, string) {
 			tmp, _ := ioutil.TempFile(tmpRoot(), "verif-conc-")
 			tmp.Close()
 			defer os.Remove(tmp.Name())
 			cmd := exec.Command(bin, "one", "-profile", profile, "-seed", fmt.Sprint(seed), "-tier", tier, "-trace", tmp.Name(), "-readers", fmt.Sprint(rd), "-lightproj")
+			if strings.HasSuffix(profile, "+mm") {
+				cmd = exec.Command(bin, "concurrent", "-profile", "child:"+profile, "-seed", fmt.Sprint(seed), "-tier", tier, "-keep", tmp.Name(), "-readers", fmt.Sprint(rd), "-lightproj")
+			}
 			cmd.Env = append(append(os.Environ(), "GOTRACEBACK=all"), extraEnv...) // SIGQUIT on a hang dumps every goroutine
-			out, err := runChild(cmd, childTimeout)
+			out, err := runChild(cmd, limit)
 			return readLines(tmp.Name()), out, err, tmp.Name()
 		}
-		plain, outA, errA, _ := run(self, 0, nil)
+		plainLimit := childTimeout
+		if fixedTimeout > 0 {
+			plainLimit = fixedTimeout
+		}
+		t0 := time.Now()
+		plain, outA, errA, _ := run(self, 0, nil, plainLimit)
+		plainTook := time.Since(t0)
+		plainTotal += plainTook
 		if errA == errChildHung {
 			dst := fmt.Sprintf("%s/concurrent-%s-%d.txt", keep, profile, seed)
 			os.MkdirAll(keep, 0o755)
-			ioutil.WriteFile(dst, []byte(fmt.Sprintf("profile=%s seed=%d readers=0: the query-free instance did not finish within %s; goroutine dump (SIGQUIT):\n%s\n", profile, seed, childTimeout, tailBytes(outA, 200000))), 0o644)
-			res.viol("C25", fmt.Sprintf("query-free instance hung (no end within %s): %s", childTimeout, clip(hangSummary(outA), 300)), dst)
+			ioutil.WriteFile(dst, []byte(fmt.Sprintf("profile=%s seed=%d readers=0: the query-free instance did not finish within %s; goroutine dump (SIGQUIT):\n%s\n", profile, seed, plainLimit, tailBytes(outA, 200000))), 0o644)
+			res.viol("C25", fmt.Sprintf("query-free instance hung (no end within %s): %s", plainLimit, clip(hangSummary(outA), 300)), dst)
 			continue
 		}
 		if errA != nil {
@@ -229,13 +941,51 @@ func Concurrent(profile string, baseSeed int64, n int, tier, keep, self, raceBin
 			bin = raceBin
 			env = append(env, "GORACE=halt_on_error=0 exitcode=0 history_size=3")
 		}
-		loaded, outB, errB, _ := run(bin, readers, env)
+		limit := loadedLimit(plainTook)
+		t1 := time.Now()
+		loaded, outB, errB, _ := run(bin, readers, env, limit)
+		loadedTotal += time.Since(t1)
 		res.Evaluations += len(plain)
+		for _, l := range strings.Split(outB, "\n") {
+			if strings.HasPrefix(l, "MM-STATS ") {
+				for _, kv := range strings.Fields(l)[1:] {
+					if j := strings.LastIndex(kv, "="); j > 0 {
+						var v int64
+						fmt.Sscanf(kv[j+1:], "%d", &v)
+						mmStats[kv[:j]] += v
+					}
+				}
+			}
+			if strings.HasPrefix(l, "READER-STATS ") {
+				for _, kv := range strings.Fields(l)[1:] {
+					if j := strings.LastIndex(kv, "="); j > 0 {
+						var v int64
+						fmt.Sscanf(kv[j+1:], "%d", &v)
+						handlerCalls[kv[:j]] += v
+					}
+				}
+			}
+		}
 		dst := fmt.Sprintf("%s/concurrent-%s-%d.txt", keep, profile, seed)
+		if errB != nil && errB != errChildHung && strings.Contains(outB, stallMarker) {
+			// reported by the watchdog inside the child
+			k := strings.Index(outB, stallMarker)
+			head := outB[k:]
+			if j := strings.Index(head, "\n"); j > 0 {
+				head = head[:j]
+			}
+			os.MkdirAll(keep, 0o755)
+			ioutil.WriteFile(dst, []byte(fmt.Sprintf("profile=%s seed=%d readers=%d: the node process hung under concurrent queries: %s (the query-free run of the whole history took %s)\n%s\n", profile, seed, readers, head, plainTook.Round(time.Millisecond), tailBytes(outB[k:], 400000))), 0o644)
+			res.viol("C25", fmt.Sprintf("node hung under concurrent read-only queries (%s; query-free run of the whole history: %s; goroutine dump in the replay file): %s", strings.TrimSuffix(strings.TrimPrefix(head, "READER-WATCHDOG "), "; goroutine dump:"), plainTook.Round(time.Second), clip(hangSummary(outB[k:]), 300)), dst)
+			res.Notes["stopped_after_hang"] = fmt.Sprintf("history %d of %d (seed %d)", i+1, n, seed)
+			continue
+		}
 		if errB == errChildHung {
 			os.MkdirAll(keep, 0o755)
-			ioutil.WriteFile(dst, []byte(fmt.Sprintf("profile=%s seed=%d readers=%d: the node process hung under concurrent queries (no end within %s); goroutine dump (SIGQUIT):\n%s\n", profile, seed, readers, childTimeout, tailBytes(outB, 400000))), 0o644)
-			res.viol("C25", fmt.Sprintf("node hung under concurrent read-only queries (no end within %s; goroutine dump in the replay file): %s", childTimeout, clip(hangSummary(outB), 300)), dst)
+			ioutil.WriteFile(dst, []byte(fmt.Sprintf("profile=%s seed=%d readers=%d: the node process hung under concurrent queries (no end within %s; the query-free run of the same history took %s); goroutine dump (SIGQUIT):\n%s\n", profile, seed, readers, limit, plainTook.Round(time.Millisecond), tailBytes(outB, 400000))), 0o644)
+			res.viol("C25", fmt.Sprintf("node hung under concurrent read-only queries (no end within %s, query-free run: %s; goroutine dump in the replay file): %s", limit, plainTook.Round(time.Second), clip(hangSummary(outB), 300)), dst)
+			// a hang is conclusive and every further history of this run would cost the same limit again
+			res.Notes["stopped_after_hang"] = fmt.Sprintf("history %d of %d (seed %d)", i+1, n, seed)
 			continue
 		}
 		if errB != nil {
@@ -244,22 +994,20 @@ func Concurrent(profile string, baseSeed int64, n int, tier, keep, self, raceBin
 			res.viol("C25", "node died under concurrent read-only queries: "+clip(lastLines(outB, 6), 300), dst)
 			continue
 		}
-		// compare what the property speaks about (responses, tags, state deltas, app hashes); the harness-internal cache-vs-disk
-		// observation lines ("X divergence …") are not part of it: a query between a module's Commit and the tree swap may
-		// re-cache an entry of a past height (seen with halt votes), which changes no response and no app hash
-		noX := func(ls []string) []string {
-			var out []string
-			for _, l := range ls {
-				if !strings.HasPrefix(l, "X ") {
-					out = append(out, l)
-				}
-			}
-			return out
+		// C25 speaks about what block execution answers and leaves behind: ABCI responses and tags, app hashes, state deltas.
+		// The harness' own cache-vs-disk observations ("X divergence …", run.go) are not part of that: under reader load a query
+		// between a module's Commit and the swap of the immutable tree may re-cache an entry the commit just removed (seen: a halt
+		// vote of a past height re-read by Halts().GetHaltBlocks); it changes no response and no app hash. They are counted instead.
+		plain, xa := dropHarnessLines(plain)
+		loaded, xb := dropHarnessLines(loaded)
+		if xb > xa {
+			staleHist++
+			staleLines += xb - xa
 		}
-		if len(noX(loaded)) != len(loaded) || len(noX(plain)) != len(plain) {
+		if xa > 0 || xb > 0 {
 			staleCache++
 		}
-		if j, x, y := firstDiff(noX(plain), noX(loaded)); j >= 0 {
+		if j, x, y := firstDiff(plain, loaded); j >= 0 {
 			os.MkdirAll(keep, 0o755)
 			ioutil.WriteFile(dst, []byte(fmt.Sprintf("profile=%s seed=%d readers=%d: execution under query load differs from the query-free run at line %d\nquery-free: %s\nloaded:     %s\n", profile, seed, readers, j, x, y)), 0o644)
 			res.viol("C25", fmt.Sprintf("block execution perturbed by concurrent queries: %s | %s", clip(x, 160), clip(y, 160)), dst)
@@ -309,6 +1057,12 @@ func Concurrent(profile string, baseSeed int64, n int, tier, keep, self, raceBin
 		res.Distinct = 2
 	}
 	res.Notes["reader_calls"] = totalCalls
+	res.Notes["api_handler_calls"] = handlerCalls
+	if len(mmStats) > 0 {
+		res.Notes["market_maker"] = mmStats
+	}
+	res.Notes["stale_cache_entries"] = map[string]int{"histories": staleHist, "lines": staleLines}
+	res.Notes["child_seconds"] = map[string]float64{"query_free": plainTotal.Seconds(), "loaded": loadedTotal.Seconds()}
 	res.Notes["histories_with_cache_vs_disk_lines"] = staleCache
 	res.Notes["reader_panics"] = readerPanics
 	if len(panicSamples) > 0 {
@@ -328,6 +1082,20 @@ func Concurrent(profile string, baseSeed int64, n int, tier, keep, self, raceBin
 	return res
 }
 
+// dropHarnessLines removes the harness-internal observation lines ("X …") from a trace; returns how many were removed.
+func dropHarnessLines(ls []string) ([]string, int) {
+	out := make([]string, 0, len(ls))
+	n := 0
+	for _, l := range ls {
+		if strings.HasPrefix(l, "X ") {
+			n++
+			continue
+		}
+		out = append(out, l)
+	}
+	return out, n
+}
+
 func lastLines(s string, n int) string {
 	ls := strings.Split(strings.TrimSpace(s), "\n")
 	if len(ls) > n {
@@ -343,26 +1111,45 @@ func tailBytes(s string, n int) string {
 	return s
 }
 
-// hangSummary: the first node frames of the goroutine dump that mention a lock wait (where the node is stuck).
+// hangSummary: the first node frames of the goroutines of the dump that wait for a lock or a channel (where the node is
+// stuck); the goroutine that executes the block (a frame of coreV2/minter.(*Blockchain)) comes first.
 func hangSummary(dump string) string {
-	var out []string
+	var exec, out []string
+	seen := map[string]bool{}
 	ls := strings.Split(dump, "\n")
 	for i, l := range ls {
 		if strings.HasPrefix(l, "goroutine ") && (strings.Contains(l, "semacquire") || strings.Contains(l, "sync.") || strings.Contains(l, "chan ")) {
-			for j := i + 1; j < len(ls) && j < i+40 && ls[j] != ""; j++ {
+			first, isExec := "", false
+			for j := i + 1; j < len(ls) && j < i+80 && ls[j] != ""; j++ {
 				if strings.HasPrefix(ls[j], "github.com/MinterTeam/minter-go-node/") {
 					f := strings.TrimPrefix(ls[j], "github.com/MinterTeam/minter-go-node/")
-					if k := strings.Index(f, "("); k > 0 {
+					if k := strings.LastIndex(f, "("); k > 0 {
 						f = f[:k]
 					}
-					out = append(out, f)
-					break
+					if first == "" {
+						first = f
+					}
+					if strings.HasPrefix(f, "coreV2/minter.(*Blockchain).") {
+						isExec = true
+						first += " <- " + strings.TrimPrefix(f, "coreV2/minter.")
+						break
+					}
 				}
 			}
+			if first == "" || seen[first] {
+				continue
+			}
+			seen[first] = true
+			if isExec {
+				exec = append(exec, first)
+			} else {
+				out = append(out, first)
+			}
 		}
-		if len(out) >= 4 {
-			break
-		}
+	}
+	out = append(exec, out...)
+	if len(out) > 4 {
+		out = out[:4]
 	}
 	if len(out) == 0 {
 		return lastLines(dump, 4)
